@@ -594,7 +594,11 @@ def c20(ck):
             if not exp_ok and complete:
                 bad = [y for y in replies if y.get("error") is not None][0]
                 short = bad["error"].rsplit(".", 1)[-1]
-                if bad["error"] not in err and short not in err:
+                err_wo = err                                      # (the tool may echo the call's arguments, which here contain the script)
+                for op_ in sc:
+                    if ":" in op_:
+                        err_wo = err_wo.replace(op_, "")
+                if bad["error"] not in err_wo and short not in err_wo:
                     ck.failures.append(dict(desc, what="an error reply's name is not reported on standard error", stderr=err[-400:]))
         # address splitting at the last slash / malformed urls
         for url, should_fail in [("org.example.a.Run", True), ("unix:/nonexistent/org.example.a.Run", True), (sv.a + "/NoDotMethod", True), ("nodots", True)]:
